@@ -212,7 +212,9 @@ def extra_traces(ctx, T, setups, pairs, quick, sits=None):
         # always: the Byzantine body with the voted header, votes for the genuine block before any genuine part
         lsits = [x for x in ssits if x != 'ProposeProp'] or ssits
         have = {t['id'] for t in out}
-        for sc in ('same-header-other-body-late-parts', 'same-header-other-data-late-parts'):
+        # ... and a block whose encoding carries a length prefix close to MaxInt64 (two of the six placements)
+        for sc in ('same-header-other-body-late-parts', 'same-header-other-data-late-parts') + \
+                tuple(rng.sample([x for x in SCENARIOS if x.startswith('block-absurd-length-')], 2)):
             sit = rng.choice(lsits)
             tid = 'scenario-%s-%s' % (sit, sc)
             if tid not in have:
